@@ -7,6 +7,7 @@
 package main
 
 import (
+	"crypto/sha1"
 	"fmt"
 	"runtime/debug"
 	"sort"
@@ -90,7 +91,7 @@ type Event struct {
 	A uint16
 }
 
-// ---------------------------------------------------------------------------- node
+// ---------------------------------------------------------------------------- live node
 
 type inKind uint8
 
@@ -107,12 +108,12 @@ const (
 	inExpire
 )
 
-// input is one entry of a node's private input history: a node's state is a deterministic
-// function of the sequence of inputs it received, which is what lets a successor be built by
-// re-running only the affected node (see fork).
+// input is one entry of a node's private input history. A node's state is a deterministic
+// function of the sequence of inputs it received since boot.
 type input struct {
 	k    inKind
 	msg  pb.Message // inStep
+	enc  []byte     // inStep: marshalled msg
 	data []byte     // inPropose
 	cc   uint16     // inProposeConf
 	to   uint64     // inTransfer
@@ -124,46 +125,32 @@ type appliedEnt struct {
 	Data        []byte
 }
 
+type outMsg struct {
+	m   pb.Message
+	enc []byte
+}
+
 // effects is everything an input made observable outside the node.
 type effects struct {
-	msgs        []pb.Message
+	msgs        []outMsg
 	applied     []appliedEnt
 	snapApplied bool
 	snapIgnored bool
 	panicVal    string
 	panicStack  string
-	stepErr     error
 }
 
-type node struct {
+// live wraps the real objects of one member: the RawNode, its MemoryStorage and the little
+// state raftexample keeps next to them.
+type live struct {
 	cfg   *Cfg
 	id    uint64
 	rn    *raft.RawNode
 	st    *raft.MemoryStorage
 	alive bool
 
-	// application level (what raftexample keeps next to the node)
 	confState  pb.ConfState
 	appliedIdx uint64
-
-	inputs []input
-	// checkpoint taken at the last restart: storage image + position in inputs
-	ckpt    *storageImage
-	ckptPos int
-
-	// cached views, refreshed after every input
-	hs      pb.HardState // persisted
-	log     []pb.Entry   // persisted entries (first..last)
-	snapIdx uint64
-	snapTrm uint64
-	status  raft.Status
-	votes   []voteRec
-	elapsed int
-}
-
-type voteRec struct {
-	id uint64
-	v  bool
 }
 
 type storageImage struct {
@@ -204,7 +191,7 @@ func (im *storageImage) materialise() *raft.MemoryStorage {
 	return st
 }
 
-func (n *node) raftConfig() *raft.Config {
+func (n *live) raftConfig() *raft.Config {
 	return &raft.Config{
 		ID:                        n.id,
 		ElectionTick:              n.cfg.ElectionTick,
@@ -219,11 +206,11 @@ func (n *node) raftConfig() *raft.Config {
 	}
 }
 
-// bootNode creates member id of a fresh group (Bootstrap with the initial peers, like
+// bootLive creates member id of a fresh group (Bootstrap with the initial peers, like
 // raft.StartNode in raftexample) or, for the joiner, an empty node (like RestartNode with
 // join=true).
-func bootNode(cfg *Cfg, id uint64) (*node, effects) {
-	n := &node{cfg: cfg, id: id, st: raft.NewMemoryStorage(), alive: true}
+func bootLive(cfg *Cfg, id uint64) (*live, effects) {
+	n := &live{cfg: cfg, id: id, st: raft.NewMemoryStorage(), alive: true}
 	var eff effects
 	func() {
 		defer catch(&eff)
@@ -243,7 +230,6 @@ func bootNode(cfg *Cfg, id uint64) (*node, effects) {
 		}
 		n.pump(&eff)
 	}()
-	n.refresh()
 	return n, eff
 }
 
@@ -279,9 +265,7 @@ func panicFunc(stack string) string {
 			if i := strings.LastIndex(l, "/"); i >= 0 {
 				l = l[i+1:]
 			}
-			if i := strings.Index(l, "("); i > 0 && !strings.HasPrefix(l[i:], "(*") {
-				l = l[:i]
-			} else if j := strings.LastIndex(l, "("); j > 0 {
+			if j := strings.LastIndex(l, "("); j > 0 {
 				l = l[:j]
 			}
 			return l
@@ -293,7 +277,7 @@ func panicFunc(stack string) string {
 // pump handles every pending Ready of the node: persist HardState / snapshot / entries into
 // the MemoryStorage, collect outgoing messages, apply committed entries (ApplyConfChange for
 // configuration entries), Advance. Same order as raftexample's serveChannels.
-func (n *node) pump(eff *effects) {
+func (n *live) pump(eff *effects) {
 	for i := 0; n.rn.HasReady(); i++ {
 		if i > 64 {
 			panic("raftmc: Ready loop does not terminate")
@@ -316,7 +300,14 @@ func (n *node) pump(eff *effects) {
 				panic(err)
 			}
 		}
-		eff.msgs = append(eff.msgs, rd.Messages...)
+		for _, m := range rd.Messages {
+			m = cloneMsg(m)
+			enc, err := m.Marshal()
+			if err != nil {
+				panic(err)
+			}
+			eff.msgs = append(eff.msgs, outMsg{m, enc})
+		}
 		for _, e := range rd.CommittedEntries {
 			eff.applied = append(eff.applied, appliedEnt{e.Index, e.Term, e.Type, e.Data})
 			switch e.Type {
@@ -339,7 +330,7 @@ func (n *node) pump(eff *effects) {
 	}
 }
 
-func (n *node) confChange(v uint16) pb.ConfChangeI {
+func (n *live) confChange(v uint16) pb.ConfChangeI {
 	j := uint64(n.cfg.Members + 1)
 	l := uint64(n.cfg.Members)
 	switch v {
@@ -361,64 +352,52 @@ func (n *node) confChange(v uint16) pb.ConfChangeI {
 	panic("bad conf change variant")
 }
 
-// feed applies one input to the node (the only place the library is called after boot).
-func (n *node) feed(in input) (eff effects) {
-	eff = n.feedQuiet(in)
-	n.refresh()
-	return eff
-}
-
-// feedQuiet is feed without refreshing the cached views (used while re-running a history).
-func (n *node) feedQuiet(in input) (eff effects) {
-	n.inputs = append(n.inputs, in)
-	func() {
-		defer catch(&eff)
-		switch in.k {
-		case inCrash:
-			n.rn = nil
-			n.alive = false
-			return
-		case inRestart:
-			// the storage image at this point fully determines the restarted node
-			n.ckpt = imageOf(n.st)
-			n.ckptPos = len(n.inputs) - 1
-			n.restart()
-		case inCompact:
-			if _, err := n.st.CreateSnapshot(n.appliedIdx, &n.confState, []byte(fmt.Sprintf("snap@%d", n.appliedIdx))); err != nil {
-				panic(err)
-			}
-			if err := n.st.Compact(n.appliedIdx); err != nil {
-				panic(err)
-			}
-		case inStep:
-			eff.stepErr = n.rn.Step(cloneMsg(in.msg))
-		case inCampaign:
-			eff.stepErr = n.rn.Campaign()
-		case inTick:
+// feed applies one input to the node: one call into the library plus the complete handling
+// of the Ready structs it produces.
+func (n *live) feed(in *input) (eff effects) {
+	defer catch(&eff)
+	switch in.k {
+	case inCrash:
+		n.rn = nil
+		n.alive = false
+		return
+	case inRestart:
+		n.restart()
+	case inCompact:
+		if _, err := n.st.CreateSnapshot(n.appliedIdx, &n.confState, []byte(fmt.Sprintf("snap@%d", n.appliedIdx))); err != nil {
+			panic(err)
+		}
+		if err := n.st.Compact(n.appliedIdx); err != nil {
+			panic(err)
+		}
+	case inStep:
+		n.rn.Step(cloneMsg(in.msg))
+	case inCampaign:
+		n.rn.Campaign()
+	case inTick:
+		n.rn.Tick()
+	case inPropose:
+		n.rn.Propose(in.data)
+	case inProposeConf:
+		n.rn.ProposeConfChange(n.confChange(in.cc))
+	case inTransfer:
+		n.rn.TransferLeader(in.to)
+	case inExpire:
+		for i := 0; i < n.cfg.ElectionTick; i++ {
+			pinElectionTimeout(n.rn)
 			n.rn.Tick()
-		case inPropose:
-			eff.stepErr = n.rn.Propose(in.data)
-		case inProposeConf:
-			eff.stepErr = n.rn.ProposeConfChange(n.confChange(in.cc))
-		case inTransfer:
-			n.rn.TransferLeader(in.to)
-		case inExpire:
-			for i := 0; i < n.cfg.ElectionTick; i++ {
-				pinElectionTimeout(n.rn)
-				n.rn.Tick()
-			}
 		}
-		if n.rn != nil {
-			if n.cfg.CheckQuorum || n.cfg.PreVote {
-				pinElectionTimeout(n.rn)
-			}
-			n.pump(&eff)
+	}
+	if n.rn != nil {
+		if n.cfg.CheckQuorum || n.cfg.PreVote {
+			pinElectionTimeout(n.rn)
 		}
-	}()
-	return eff
+		n.pump(&eff)
+	}
+	return
 }
 
-func (n *node) restart() {
+func (n *live) restart() {
 	snap, _ := n.st.Snapshot()
 	n.confState = snap.Metadata.ConfState
 	n.appliedIdx = snap.Metadata.Index
@@ -430,34 +409,82 @@ func (n *node) restart() {
 	n.alive = true
 }
 
-// refresh re-reads the cached views from storage and RawNode.
-func (n *node) refresh() {
+func cloneMsg(m pb.Message) pb.Message {
+	if len(m.Entries) > 0 {
+		m.Entries = append([]pb.Entry(nil), m.Entries...)
+	}
+	return m
+}
+
+// ---------------------------------------------------------------------------- frozen view
+
+type hist [16]byte
+
+// node is the immutable observation of a member after some input history: everything the
+// invariants and the state key need, read from the RawNode and its storage right after the
+// input was handled. Cluster states are made of these; the mutable objects live in sim.
+type node struct {
+	cfg    *Cfg
+	id     uint64
+	h      hist
+	parent *node         // history (nil at boot and after a crash, where img takes over)
+	in     input         // the input that led from parent to this node
+	img    *storageImage // set on a crashed node: the persisted state a restart starts from
+	eff    *effects      // effects of `in`
+
+	alive      bool
+	confState  pb.ConfState
+	appliedIdx uint64
+
+	hs       pb.HardState // persisted
+	log      []pb.Entry   // persisted entries (first..last)
+	snapIdx  uint64
+	snapTrm  uint64
+	snapConf pb.ConfState
+	status   raft.Status
+	votes    []voteRec
+	elapsed  int
+	kb       []byte // canonical serialisation of this node (part of the state key)
+}
+
+type voteRec struct {
+	id uint64
+	v  bool
+}
+
+func freeze(n *live, parent *node, in *input, eff *effects, h hist) *node {
+	f := &node{cfg: n.cfg, id: n.id, h: h, parent: parent, eff: eff, alive: n.alive, confState: n.confState, appliedIdx: n.appliedIdx}
+	if in != nil {
+		f.in = *in
+	}
 	hs, _, _ := n.st.InitialState()
-	n.hs = hs
+	f.hs = hs
 	snap, _ := n.st.Snapshot()
-	n.snapIdx, n.snapTrm = snap.Metadata.Index, snap.Metadata.Term
+	f.snapIdx, f.snapTrm, f.snapConf = snap.Metadata.Index, snap.Metadata.Term, snap.Metadata.ConfState
 	fi, _ := n.st.FirstIndex()
 	li, _ := n.st.LastIndex()
-	n.log = nil
 	if li >= fi {
-		e, err := n.st.Entries(fi, li+1, ^uint64(0))
-		if err == nil {
-			n.log = e
+		if e, err := n.st.Entries(fi, li+1, ^uint64(0)); err == nil {
+			f.log = append([]pb.Entry(nil), e...)
 		}
 	}
-	n.votes = n.votes[:0]
-	n.elapsed = 0
-	if n.rn != nil {
+	if n.rn != nil && eff.panicVal == "" {
 		func() {
 			defer func() { recover() }()
-			n.status = n.rn.Status()
+			f.status = n.rn.Status()
 			pk := peek(n.rn)
-			n.votes = pk.votes
-			n.elapsed = pk.electionElapsed
+			f.votes = pk.votes
+			f.elapsed = pk.electionElapsed
 		}()
-	} else {
-		n.status = raft.Status{}
 	}
+	if in != nil && in.k == inCrash {
+		f.img = imageOf(n.st)
+		f.parent = nil
+	}
+	k := &kbuf{b: make([]byte, 0, 256)}
+	f.writeKey(k, n.cfg.CheckQuorum || n.cfg.PreVote)
+	f.kb = k.b
+	return f
 }
 
 func (n *node) lastIndex() uint64 {
@@ -488,31 +515,126 @@ func (n *node) entryAt(i uint64) (*pb.Entry, bool) {
 
 func (n *node) isLeader() bool { return n.alive && n.status.RaftState == raft.StateLeader }
 
-// rebuild returns a fresh node in the same state, obtained by re-running the node's own
-// input history on new objects (from boot, or from the storage image saved at its last
-// restart).
-func (n *node) rebuild() *node {
-	var c *node
-	start := 0
-	if n.ckpt != nil {
-		c = &node{cfg: n.cfg, id: n.id, st: n.ckpt.materialise(), alive: false}
-		c.inputs = n.inputs[:n.ckptPos:n.ckptPos]
-		start = n.ckptPos
-	} else {
-		c, _ = bootNode(n.cfg, n.id)
-	}
-	for _, in := range n.inputs[start:] {
-		c.feedQuiet(in)
-	}
-	c.refresh()
-	return c
+// ---------------------------------------------------------------------------- sim
+
+// sim owns the real objects. exec(f, in) returns the observation of node f after one more
+// input. The computation is a deterministic function of (input history, input), so its
+// result is memoised per history; on a miss the input is fed to a RawNode that is in exactly
+// that history state: either one kept from the previous step of the same history, or a fresh
+// one rebuilt by re-running the history (from boot, or from the storage image of its last
+// crash). With memoisation off (straight-line replay) every input goes to the one RawNode of
+// that member.
+type sim struct {
+	useMemo bool
+	memo    map[hist]*node
+	lives   map[hist]*live
+
+	Execs     int // inputs fed to a RawNode for a new (history, input) pair
+	Hits      int // transitions answered from the memo
+	Thaws     int // RawNodes rebuilt from their history
+	ThawFeeds int // inputs re-fed during rebuilds
 }
 
-func cloneMsg(m pb.Message) pb.Message {
-	if len(m.Entries) > 0 {
-		m.Entries = append([]pb.Entry(nil), m.Entries...)
+func newSim(useMemo bool) *sim {
+	return &sim{useMemo: useMemo, memo: map[hist]*node{}, lives: map[hist]*live{}}
+}
+
+const memoCap = 60000
+const liveCap = 3000
+
+func nextHist(h hist, in *input) hist {
+	d := sha1.New()
+	d.Write(h[:])
+	d.Write([]byte{byte(in.k)})
+	switch in.k {
+	case inStep:
+		d.Write(in.enc)
+	case inPropose:
+		d.Write(in.data)
+	case inProposeConf:
+		d.Write([]byte{byte(in.cc)})
+	case inTransfer:
+		d.Write([]byte{byte(in.to)})
 	}
-	return m
+	var out hist
+	copy(out[:], d.Sum(nil))
+	return out
+}
+
+func rootHist(cfg *Cfg, id uint64) hist {
+	s := sha1.Sum([]byte(fmt.Sprintf("boot|%v|%v|%d|%d|%d|%v|%d", cfg.PreVote, cfg.CheckQuorum, cfg.ElectionTick, cfg.MaxSizePerMsg, cfg.Members, cfg.Joiner, id)))
+	var out hist
+	copy(out[:], s[:])
+	return out
+}
+
+func (s *sim) root(cfg *Cfg, id uint64) *node {
+	h := rootHist(cfg, id)
+	if s.useMemo {
+		if f, ok := s.memo[h]; ok {
+			return f
+		}
+	}
+	n, eff := bootLive(cfg, id)
+	f := freeze(n, nil, nil, &eff, h)
+	s.keep(h, n, f)
+	return f
+}
+
+func (s *sim) keep(h hist, n *live, f *node) {
+	if len(s.lives) >= liveCap {
+		s.lives = map[hist]*live{}
+	}
+	s.lives[h] = n
+	if s.useMemo {
+		if len(s.memo) >= memoCap {
+			s.memo = map[hist]*node{}
+		}
+		s.memo[h] = f
+	}
+}
+
+func (s *sim) exec(f *node, in *input) *node {
+	h := nextHist(f.h, in)
+	if s.useMemo {
+		if g, ok := s.memo[h]; ok {
+			s.Hits++
+			return g
+		}
+	}
+	n, ok := s.lives[f.h]
+	if ok {
+		delete(s.lives, f.h)
+	} else {
+		n = s.thaw(f)
+	}
+	s.Execs++
+	eff := n.feed(in)
+	g := freeze(n, f, in, &eff, h)
+	s.keep(h, n, g)
+	return g
+}
+
+// thaw builds fresh objects in the state described by f by re-running f's input history.
+func (s *sim) thaw(f *node) *live {
+	s.Thaws++
+	var ins []*input
+	g := f
+	for g.parent != nil {
+		ins = append(ins, &g.in)
+		g = g.parent
+	}
+	var n *live
+	if g.img != nil {
+		n = &live{cfg: g.cfg, id: g.id, st: g.img.materialise(), alive: false, confState: g.confState, appliedIdx: g.appliedIdx}
+	} else {
+		n, _ = bootLive(g.cfg, g.id)
+	}
+	for i := len(ins) - 1; i >= 0; i-- {
+		n.feed(ins[i])
+		s.ThawFeeds++
+	}
+	return n
 }
 
 // ---------------------------------------------------------------------------- cluster
@@ -563,7 +685,10 @@ type violation struct {
 	Func   string
 }
 
+// cluster is one global state. It is never modified after construction: step returns a new
+// value that shares the untouched nodes.
 type cluster struct {
+	sim  *sim
 	cfg  *Cfg
 	bud  *Budget
 	fifo bool // pool order is part of the state (Box B)
@@ -576,21 +701,20 @@ type cluster struct {
 	leaderOf []uint64    // by term; 0 = none seen
 	ledger   []ledgerEnt // by index
 
-	viol  []violation
+	viol  []violation // raised by the transition that produced this state
 	flags uint32
 }
 
-func newCluster(cfg *Cfg, bud *Budget, fifo bool) *cluster {
-	c := &cluster{cfg: cfg, bud: bud, fifo: fifo}
+func newCluster(s *sim, cfg *Cfg, bud *Budget, fifo bool) *cluster {
+	c := &cluster{sim: s, cfg: cfg, bud: bud, fifo: fifo}
 	total := cfg.Members
 	if cfg.Joiner {
 		total++
 	}
 	for id := 1; id <= total; id++ {
-		n, eff := bootNode(cfg, uint64(id))
+		n := s.root(cfg, uint64(id))
 		c.nodes = append(c.nodes, n)
-		before := nodeView{}
-		c.absorb(n, &before, &eff, Event{K: evRestart, N: uint8(id)})
+		c.absorb(n, nil, Event{K: evRestart, N: uint8(id)})
 	}
 	c.flags = 0
 	return c
@@ -612,193 +736,164 @@ func (c *cluster) findMsg(seq uint16) int {
 	return -1
 }
 
-// fork returns a copy of the cluster in which node `touch` (0 = none) has been rebuilt on
-// fresh objects; all other nodes are shared with the receiver and must only be read.
-func (c *cluster) fork(touch uint64) *cluster {
-	d := &cluster{cfg: c.cfg, bud: c.bud, fifo: c.fifo, nextSeq: c.nextSeq, used: c.used}
-	d.nodes = append([]*node(nil), c.nodes...)
-	if touch != 0 {
-		d.nodes[touch-1] = c.nodes[touch-1].rebuild()
-	}
-	d.pool = append([]pmsg(nil), c.pool...)
-	d.leaderOf = append([]uint64(nil), c.leaderOf...)
-	d.ledger = append([]ledgerEnt(nil), c.ledger...)
+func (c *cluster) clone() *cluster {
+	d := &cluster{sim: c.sim, cfg: c.cfg, bud: c.bud, fifo: c.fifo, nextSeq: c.nextSeq, used: c.used}
+	d.nodes = append(make([]*node, 0, len(c.nodes)), c.nodes...)
+	d.pool = append(make([]pmsg, 0, len(c.pool)+4), c.pool...)
+	d.leaderOf = append(make([]uint64, 0, len(c.leaderOf)+1), c.leaderOf...)
+	d.ledger = append(make([]ledgerEnt, 0, len(c.ledger)+2), c.ledger...)
 	return d
 }
 
-// target returns the node an event acts on (0 for pure pool events).
-func (c *cluster) target(e Event) uint64 {
-	switch e.K {
-	case evDrop, evDup:
-		return 0
-	case evDeliver:
-		i := c.findMsg(e.A)
-		if i < 0 {
-			return 0
-		}
-		to := c.pool[i].m.To
-		if n := c.node(to); n == nil || !n.alive {
-			return 0
-		}
-		return to
-	}
-	return uint64(e.N)
-}
-
-type nodeView struct {
-	hs        pb.HardState
-	log       []pb.Entry
-	snapIdx   uint64
-	wasLeader bool
-	alive     bool
-	term      uint64
-}
-
-func viewOf(n *node) nodeView {
-	return nodeView{hs: n.hs, log: n.log, snapIdx: n.snapIdx, wasLeader: n.isLeader(), alive: n.alive, term: n.status.Term}
-}
-
-// apply executes one event in place. It returns false if the event is not enabled.
-func (c *cluster) apply(e Event) bool {
-	c.viol = c.viol[:0]
-	c.flags = 0
+// step returns the successor of c under event e, or nil if e is not enabled in c.
+func (c *cluster) step(e Event) *cluster {
 	switch e.K {
 	case evDrop:
 		i := c.findMsg(e.A)
 		if i < 0 || int(c.used.Drops) >= c.bud.Drops {
-			return false
+			return nil
 		}
-		c.pool = append(c.pool[:i:i], c.pool[i+1:]...)
-		c.used.Drops++
-		return true
+		d := c.clone()
+		d.pool = append(d.pool[:i], d.pool[i+1:]...)
+		d.used.Drops++
+		return d
 	case evDup:
 		i := c.findMsg(e.A)
 		if i < 0 || int(c.used.Dups) >= c.bud.Dups {
-			return false
+			return nil
 		}
-		p := c.pool[i]
-		p.seq = c.nextSeq
-		c.nextSeq++
-		c.pool = append(c.pool[:len(c.pool):len(c.pool)], p)
-		c.used.Dups++
-		return true
+		d := c.clone()
+		p := d.pool[i]
+		p.seq = d.nextSeq
+		d.nextSeq++
+		d.pool = append(d.pool, p)
+		d.used.Dups++
+		return d
 	case evDeliver:
 		i := c.findMsg(e.A)
 		if i < 0 {
-			return false
+			return nil
 		}
-		p := c.pool[i]
-		c.pool = append(c.pool[:i:i], c.pool[i+1:]...)
-		n := c.node(p.m.To)
+		d := c.clone()
+		p := d.pool[i]
+		d.pool = append(d.pool[:i], d.pool[i+1:]...)
+		n := d.node(p.m.To)
 		if n == nil || !n.alive {
-			return true // addressed to a node that is down: lost
+			return d // addressed to a node that is down: lost
 		}
-		before := viewOf(n)
 		if p.m.Term != 0 && p.m.Term < n.status.Term {
-			c.flags |= fStaleTermMsg
+			d.flags |= fStaleTermMsg
 		}
-		eff := n.feed(input{k: inStep, msg: p.m})
-		c.absorb(n, &before, &eff, e)
-		return true
+		g := c.sim.exec(n, &input{k: inStep, msg: p.m, enc: p.enc})
+		d.nodes[n.id-1] = g
+		d.absorb(g, n, e)
+		return d
 	}
 	n := c.node(uint64(e.N))
 	if n == nil {
-		return false
+		return nil
 	}
+	u := c.used
 	var in input
+	var fl uint32
 	switch e.K {
 	case evCampaign:
 		if !n.alive || n.isLeader() || n.status.Term >= c.bud.MaxTerm {
-			return false
+			return nil
 		}
 		in = input{k: inCampaign}
 	case evHeartbeat:
-		if !n.isLeader() || int(c.used.Heartbeats) >= c.bud.Heartbeats {
-			return false
+		if !n.isLeader() || int(u.Heartbeats) >= c.bud.Heartbeats {
+			return nil
 		}
-		c.used.Heartbeats++
+		u.Heartbeats++
 		in = input{k: inTick}
 	case evPropose:
-		if !n.alive || int(c.used.Proposals) >= c.bud.Proposals {
-			return false
+		if !n.alive || int(u.Proposals) >= c.bud.Proposals {
+			return nil
 		}
-		c.used.Proposals++
-		in = input{k: inPropose, data: []byte(fmt.Sprintf("p%d", c.used.Proposals))}
+		u.Proposals++
+		in = input{k: inPropose, data: []byte(fmt.Sprintf("p%d", u.Proposals))}
 	case evCrash:
-		if !n.alive || int(c.used.Crashes) >= c.bud.Crashes {
-			return false
+		if !n.alive || int(u.Crashes) >= c.bud.Crashes {
+			return nil
 		}
-		c.used.Crashes++
+		u.Crashes++
 		in = input{k: inCrash}
 	case evRestart:
 		if n.alive {
-			return false
+			return nil
 		}
 		if len(n.log) > 0 && n.log[len(n.log)-1].Index > uint64(c.cfg.Members) {
-			c.flags |= fRestartWithLog
+			fl |= fRestartWithLog
 		}
 		in = input{k: inRestart}
 	case evCompact:
-		if !n.alive || int(c.used.Compacts) >= c.bud.Compacts || n.appliedIdx <= n.snapIdx || n.appliedIdx > n.lastIndex() {
-			return false
+		if !n.alive || int(u.Compacts) >= c.bud.Compacts || n.appliedIdx <= n.snapIdx || n.appliedIdx > n.lastIndex() {
+			return nil
 		}
-		c.used.Compacts++
+		u.Compacts++
 		in = input{k: inCompact}
 	case evConf:
-		if !n.isLeader() || int(c.used.ConfChanges) >= c.bud.ConfChanges || e.A >= ccVariants || !c.cfg.Joiner {
-			return false
+		if !n.isLeader() || int(u.ConfChanges) >= c.bud.ConfChanges || e.A >= ccVariants || !c.cfg.Joiner {
+			return nil
 		}
 		joint := len(n.status.Config.Voters[1]) > 0
 		if (e.A == ccLeaveJoint) != joint {
-			return false
+			return nil
 		}
-		c.used.ConfChanges++
+		u.ConfChanges++
 		in = input{k: inProposeConf, cc: e.A}
 	case evTransfer:
-		if !n.isLeader() || int(c.used.Transfers) >= c.bud.Transfers || uint64(e.A) == n.id || c.node(uint64(e.A)) == nil {
-			return false
+		if !n.isLeader() || int(u.Transfers) >= c.bud.Transfers || uint64(e.A) == n.id || c.node(uint64(e.A)) == nil {
+			return nil
 		}
 		if _, ok := n.status.Progress[uint64(e.A)]; !ok {
-			return false
+			return nil
 		}
-		c.used.Transfers++
+		u.Transfers++
 		in = input{k: inTransfer, to: uint64(e.A)}
 	case evExpire:
-		if !(c.cfg.CheckQuorum) || !n.alive || n.isLeader() || int(c.used.Expires) >= c.bud.Expires || n.elapsed >= c.cfg.ElectionTick {
-			return false
+		if !c.cfg.CheckQuorum || !n.alive || n.isLeader() || int(u.Expires) >= c.bud.Expires || n.elapsed >= c.cfg.ElectionTick {
+			return nil
 		}
-		c.used.Expires++
+		u.Expires++
 		in = input{k: inExpire}
 	default:
-		return false
+		return nil
 	}
-	before := viewOf(n)
-	eff := n.feed(in)
-	c.absorb(n, &before, &eff, e)
-	return true
+	d := c.clone()
+	d.used = u
+	d.flags = fl
+	g := c.sim.exec(n, &in)
+	d.nodes[n.id-1] = g
+	d.absorb(g, n, e)
+	return d
 }
 
-// absorb moves the effects of an input into the cluster (pool, history variables) and checks
-// every invariant that the event could have affected.
-func (c *cluster) absorb(n *node, before *nodeView, eff *effects, e Event) {
+var zeroNode = &node{}
+
+// absorb moves the effects of the input that produced n into the cluster (pool, history
+// variables) and checks every invariant that the event could have affected.
+func (c *cluster) absorb(n, before *node, e Event) {
+	eff := n.eff
+	if before == nil {
+		before = zeroNode
+	}
 	if eff.panicVal != "" {
 		c.viol = append(c.viol, violation{Kind: "Panic", Func: panicFunc(eff.panicStack),
 			Detail: fmt.Sprintf("node %d: the library panicked handling %s: %s\n%s", n.id, evNames[e.K], eff.panicVal, eff.panicStack)})
 		return
 	}
-	for _, m := range eff.msgs {
-		if m.To == n.id || m.To == 0 {
-			c.viol = append(c.viol, violation{Kind: "SelfAddressedMessage", Detail: fmt.Sprintf("node %d emitted %s", n.id, descMsg(&m))})
+	for i := range eff.msgs {
+		m := &eff.msgs[i]
+		if m.m.To == n.id || m.m.To == 0 {
+			c.viol = append(c.viol, violation{Kind: "SelfAddressedMessage", Detail: fmt.Sprintf("node %d emitted %s", n.id, descMsg(&m.m))})
 			continue
 		}
-		m = cloneMsg(m)
-		enc, err := m.Marshal()
-		if err != nil {
-			panic(err)
-		}
-		c.pool = append(c.pool[:len(c.pool):len(c.pool)], pmsg{seq: c.nextSeq, m: m, enc: enc})
+		c.pool = append(c.pool, pmsg{seq: c.nextSeq, m: m.m, enc: m.enc})
 		c.nextSeq++
-		switch m.Type {
+		switch m.m.Type {
 		case pb.MsgSnap:
 			c.flags |= fSnapSent
 		case pb.MsgPreVote:
@@ -806,7 +901,7 @@ func (c *cluster) absorb(n *node, before *nodeView, eff *effects, e Event) {
 		case pb.MsgTimeoutNow:
 			c.flags |= fTransfer
 		case pb.MsgVoteResp, pb.MsgPreVoteResp:
-			if m.Reject {
+			if m.m.Reject {
 				c.flags |= fVoteRejected
 			}
 		}
